@@ -13,6 +13,7 @@ import (
 	"mime"
 	"net/http"
 	"net/http/httptest"
+	"runtime"
 	"strconv"
 	"strings"
 	"sync"
@@ -485,6 +486,71 @@ func checkC11(e *core.Env) {
 
 	// over a real connection: header metadata that the handler sets under names HTTP itself gives a meaning to
 	// (relayed from somewhere, or echoed from the request) does not deform the reply
+	// two JSON unary calls that overlap: the first one's reply is on its way to a slow client (its Write has been
+	// entered and has not copied anything yet) while the second one is served from start to finish. Each client
+	// gets the reply of its own call. (One processor, so that whatever the server re-uses between calls is re-used.)
+	e.Cases("json-overlapping-replies", e.N(8, 60), func(i int, r *rand.Rand) {
+		prev := runtime.GOMAXPROCS(1)
+		defer runtime.GOMAXPROCS(prev)
+		js := i%3 != 2
+		ct := httpgrpc.UnaryRpcContentType_V1
+		if js {
+			ct = httpgrpc.ApplicationJson
+		}
+		mk := func(tag string, n int) (*Run, *http.Request, *tpb.Message) {
+			reply := &tpb.Message{Payload: bytes.Repeat([]byte(tag), n), Count: int32(n)}
+			sc := &Script{Kind: Unary, UnaryReq: &tpb.Message{Payload: []byte("q")}, Resp: reply}
+			run := svc.NewRun(sc, "http-direct")
+			var body []byte
+			if js {
+				body, _ = protojson.Marshal(sc.UnaryReq)
+			} else {
+				body, _ = proto.Marshal(sc.UnaryReq)
+			}
+			hr := httptest.NewRequest("POST", "/base"+Unary.Method(), bytes.NewReader(body))
+			hr.Header.Set("Content-Type", ct)
+			hr.Header.Set("X-Verif-Run", run.ID)
+			return run, hr, reply
+		}
+		n := 20 + r.Intn(200)
+		runA, reqA, replyA := mk("A", n)
+		runB, reqB, _ := mk("B", n+r.Intn(3))
+		defer svc.Forget(runA)
+		defer svc.Forget(runB)
+		slow := &slowWriter{hdr: http.Header{}, entered: make(chan struct{}), goOn: make(chan struct{})}
+		doneA := make(chan string, 1)
+		go func() { doneA <- guard(func() { servers[0].ServeHTTP(slow, reqA) }) }()
+		select {
+		case <-slow.entered:
+		case p := <-doneA:
+			e.Inconclusive("C11 json-overlapping-replies: first call ended before writing (%s)", trunc(p, 100))
+			return
+		case <-time.After(watchdog):
+			e.Inconclusive("C11 json-overlapping-replies: first call never wrote")
+			return
+		}
+		recB := httptest.NewRecorder()
+		panB := guard(func() { servers[0].ServeHTTP(recB, reqB) })
+		close(slow.goOn)
+		panA := <-doneA
+		e.Eval(fmt.Sprintf("json-overlapping-replies|json=%v", js), true)
+		w := map[string]any{"content_type": ct, "reply_a": fmt.Sprintf("%.80q", slow.buf.String())}
+		if panA != "" || panB != "" {
+			e.Violate("server/unary/overlapping-replies/panic", trunc(panA+panB, 400), w)
+			return
+		}
+		got := new(tpb.Message)
+		var derr error
+		if js {
+			derr = protojson.Unmarshal(slow.buf.Bytes(), got)
+		} else {
+			derr = proto.Unmarshal(slow.buf.Bytes(), got)
+		}
+		if derr != nil || !proto.Equal(got, replyA) {
+			e.Violate(fmt.Sprintf("server/unary/overlapping-replies/json=%v", js), fmt.Sprintf("two calls overlapped (the first one's reply was being written when the second was served): the first client's reply does not decode to the first handler's response (decode error: %v, payload starts %.20q)", derr, got.GetPayload()), w)
+		}
+	})
+
 	// a service whose messages are of the older generated kind (plain structs with protobuf tags and the three
 	// v1 methods; many code bases still have them): JSON requests are handled like protobuf ones
 	legacySrv := httpgrpc.NewServer()
@@ -675,3 +741,23 @@ type legacyMsg struct {
 func (m *legacyMsg) Reset()         { *m = legacyMsg{} }
 func (m *legacyMsg) String() string { return "legacyMsg{" + m.Name + "}" }
 func (*legacyMsg) ProtoMessage()    {}
+
+// slowWriter is a ResponseWriter for a slow client: its first Write announces itself and waits before it copies.
+type slowWriter struct {
+	hdr     http.Header
+	code    int
+	buf     bytes.Buffer
+	entered chan struct{}
+	goOn    chan struct{}
+	once    sync.Once
+}
+
+func (w *slowWriter) Header() http.Header { return w.hdr }
+func (w *slowWriter) WriteHeader(c int)   { w.code = c }
+func (w *slowWriter) Write(p []byte) (int, error) {
+	w.once.Do(func() {
+		close(w.entered)
+		<-w.goOn
+	})
+	return w.buf.Write(p)
+}
